@@ -534,6 +534,80 @@ def run(pid, tier, replay=None):
         if rc:
             return rc
     if pid == "C12":
+        # ---- the miner's thread walks the peer book (get_active_peers) while the network thread changes it (ActivePeers): design level,
+        #      then the whole found-block handling stopped before every line it executes in manager.py while a peer connects / disconnects
+        for (snap, expect) in ((True, None), (False, "I_WalkNeverRaises")):
+            ra_ = tracecheck.model("ActivePeers", "Spec", {"Peers": {1, 2, 3}, "Snapshot": snap, "MaxChanges": 2}, invariants=["I_WalkNeverRaises"], workers=2, timeout=300)
+            tlc.require_clean(ra_, "ActivePeers")
+            chk.add_tlc("ActivePeers Snapshot=%s (a walk over the connected peers against connects / disconnects)" % snap, ra_, expect_violation=expect)
+            if (expect is None) != (not ra_.violated):
+                return machinery_failure(pid, "ActivePeers Snapshot=%s: unexpected %s" % (snap, ra_.violated))
+        from harness import preempt, fakenet
+        import selectors as _sel
+        atraces = []
+        for variant in ("connect", "disconnect"):
+            def make_found(variant=variant):
+                w_, g_, blocks_, txs_ = build_universe(cfg, keys)
+                run2 = node_drv.NodeRun(w_, g_, peers=["p", "q", "r"], tid=0, clock0=5000)
+                run2.deliver_block("p", blocks_[1])
+                run2.miner()
+                import skepticoin.mining as mining_
+                mining_.print = lambda *a, **k: None
+                import skepticoin.consensus as c_
+                from skepticoin.datatypes import Block, BlockHeader
+                found = None
+                for nonce in range(1, 6000):
+                    run2.mine_request(nonce)
+                    summary, height, txs2 = run2.mw.mining_args[0]
+                    sh = c_.construct_summary_hash(summary, height)
+                    cand = Block(BlockHeader(summary, c_.construct_pow_evidence_after_scrypt(sh, run2.mw.coinstate, summary, height, txs2)), txs2)
+                    if indep.blockid(cand) < summary.target:
+                        found = (cand, sh)
+                        break
+                for nm_ in run2.peers:
+                    run2.node.take_sent(nm_)
+                nmgr = run2.node.local.network_manager
+                out = {"raised": ""}
+
+                def a():
+                    try:
+                        run2.mw.handle_scrypt_output_message(0, found[1])
+                    except BaseException as e:      # noqa: B902
+                        out["raised"] = repr(e)[:160]
+
+                def b():
+                    if variant == "connect":
+                        sock = fakenet.FakeSocket()
+                        peer = run2.node.rp.ConnectedRemotePeer(run2.node.local, "10.0.7.7", 7777, "INCOMING", None, sock, ban_score=0)
+                        run2.node.local.selector.register(sock, _sel.EVENT_READ, data=peer)
+                        nmgr.handle_peer_connected(peer)
+                    else:
+                        run2.node.local.disconnect(run2.node.peers["r"][0], "remote side hangs up")
+
+                def observe():
+                    run2.node.pump_writes()
+                    stay = ["p", "q"] if variant == "disconnect" else ["p", "q", "r"]
+                    got = []
+                    for nm_ in stay:
+                        got.append(sum(1 for (h_, m_) in run2.node.take_sent(nm_) if type(m_).__name__ == "DataMessage" and type(m_.data).__name__ == "Block" and m_.data.hash() == found[0].hash()))
+                    try:
+                        rows = {b_.hash() for b_ in run2.node.store_rows()}
+                    except Exception:
+                        rows = set()
+                    return {"raised": out["raised"], "stored": found[0].hash() in rows, "served": found[0].hash() in run2.node.chain().block_by_hash, "stayers_got": got}
+                return {"a": a, "b": b, "observe": observe, "close": run2.close}
+            for (k_, n_, blocked, obs, errs) in preempt.explore(make_found, ("skepticoin/networking/manager.py",)):
+                atraces.append(dict(obs, id=len(atraces) + 1, k=k_, of=n_, variant=variant))
+                chk.case(("walk_vs_" + variant, k_), nontrivial=True)
+        av, rat = tracecheck.run("TraceActivePeers", atraces, {}, ids=[t["id"] for t in atraces], workers=1, timeout=600)
+        chk.traces_validated += len(atraces)
+        chk.states += rat.distinct
+        chk.extra["found_block_vs_peer_book_changes"] = {"preemption_points": len(atraces)}
+        for t_id, (clause, line) in av.items():
+            if clause != "ok":
+                t = atraces[t_id - 1]
+                chk.violation(clause, {"peer_book_change": t["variant"], "before_line_stop": t["k"], "of": t["of"], "observed": {k2: t[k2] for k2 in ("raised", "stored", "served", "stayers_got")}},
+                              {"clause": clause})
         # ---- the broadcast of a found block comes from the miner's thread: the connection's send queue under two threads (SendPath)
         from checks import sendpath
         rc = sendpath.stage_threads(chk, quick, rng, pid)
